@@ -53,12 +53,28 @@ Definition C03_statement : Prop :=
      exists pre d, send_ops_in x c s = pre ++ [TWrite d; TFlush] /\
        forall hist, In (TWrite d) hist ->
          snd (transport (hist ++ [TFlush])) = [] /\
-         exists h1 h2, fst (transport (hist ++ [TFlush])) = stream h1 ++ d ++ stream h2).
+         exists h1 h2, fst (transport (hist ++ [TFlush])) = stream h1 ++ d ++ stream h2) /\
+  (* (vi) the transport may be installed late and replaced.  EVERY sequence of set_writer calls and
+     sends is `unseg ss0 segs` (seg/unseg, C03_sessions_covered).  Writer object number i receives
+     exactly what the configuration given to ITS set_writer call produces for the sends made while it
+     was installed, in order; the sends made before any transport existed (ss0) are written nowhere,
+     now or later.  So nothing rendered in one framing mode is ever written in another: with headers
+     on a writer's bytes are whole frames decoding to those messages; with headers off (not the LSP
+     base protocol: the test / websocket mode) every write call carries exactly one whole JSON body. *)
+  (forall ss0 segs i w h ss, nth_error segs i = Some (w, h, ss) ->
+     for_writer i (p_run p_init (unseg ss0 segs)) =
+     sender_ops {| writer := w; include_headers := h |} ss) /\
+  (forall ss0 segs i w ss, nth_error segs i = Some (w, true, ss) -> w <> WNone ->
+     spec_decode (stream (for_writer i (p_run p_init (unseg ss0 segs)))) =
+     Some (map dumps (flat_map sent_trees ss))) /\
+  (forall ss0 segs i w ss, nth_error segs i = Some (w, false, ss) -> w <> WNone ->
+     flat_map op_chunk (for_writer i (p_run p_init (unseg ss0 segs))) =
+     map dumps (flat_map sent_trees ss)).
 
 Theorem C03 : C03_statement.
 Proof.
   unfold C03_statement.
-  split; [|split; [|split; [|split; [|split; [|split; [|split; [|split; [|split]]]]]]]].
+  split; [|split; [|split; [|split; [|split; [|split; [|split; [|split; [|split; [|split; [|split; [|split]]]]]]]]]]].
   - intros c j H. split; [apply dumps_ascii|]. split; [apply header_len_is_byte_len|].
     split; [apply send_data_tree; exact H|].
     rewrite (ascii_utf8 (dumps j)) by apply dumps_ascii. split.
@@ -74,6 +90,9 @@ Proof.
   - intros c s H Hw. apply flush_last; assumption.
   - intros x y c s. apply send_ops_context_free.
   - intros x c s. apply flushed_when_send_returns.
+  - apply session_per_writer.
+  - apply session_writer_frames.
+  - apply session_writer_bare.
 Qed.
 Print Assumptions C03.
 
@@ -106,6 +125,24 @@ Proof.
             [split_write 30 (frame (dumps (JInt 1))); split_write 30 (frame (dumps (JInt 2)))]).
   split; [apply run_schedule_interleave|vm_compute; reflexivity].
 Qed.
+
+(* clause (vi) speaks of every session *)
+Theorem C03_sessions_covered : forall (ops : list (sop wkind)),
+  unseg (fst (seg ops)) (snd (seg ops)) = ops.
+Proof. intros ops. apply unseg_seg. Qed.
+
+(* non-vacuity of (vi): a send before any transport, headers on, then the writer replaced, headers off *)
+Example C03_session_example :
+  let ops := [OSend (SNotify [108] (Some (JStr [233])));
+              OSetWriter WStdout true; OSend (SResponse (JInt 1) (Some JNull));
+              OSetWriter WPlain false; OSend (SNotify [110] (Some (JInt 2)))] in
+  let out := p_run p_init ops in
+  seg ops = ([SNotify [108] (Some (JStr [233]))],
+             [(WStdout, true, [SResponse (JInt 1) (Some JNull)]); (WPlain, false, [SNotify [110] (Some (JInt 2))])]) /\
+  spec_decode (stream (for_writer 0 out)) = Some [dumps (response_tree (JInt 1) JNull)] /\
+  for_writer 1 out = [TWrite (dumps (notification_tree [110] (JInt 2)))] /\
+  length out = 3%nat.
+Proof. vm_compute. repeat split. Qed.
 
 (* The hypothesis of (iii) is necessary, and is about JSON, not about pygls: a high surrogate
    followed by a low one IS the astral character in \u notation. *)
